@@ -154,7 +154,7 @@ def judge(new, ids, stack, watches, probs, st):
     for s in snaps:
         before = len(probs)
         snapcheck.check_frames(s, stack, probs)
-        snapcheck.check_frame_vars(s, stack, 'single_frame', {'max_str': 1024, 'max_coll': 10}, probs,
+        snapcheck.check_frame_vars(s, stack, 'single_frame', {'max_str': snapcheck.default_limits()['max_str'], 'max_coll': None}, probs,
                                    strict_children=None)
         snapcheck.check_closed(s, probs)
         for w in watches:
